@@ -108,7 +108,9 @@ Definition C04_kats :=
    Spec.KAT_Blake.blake384_empty, Spec.KAT_Blake.blake256_1, Spec.KAT_Blake.blake256_72,
    Spec.KAT_Blake.blake224_1, Spec.KAT_Blake.blake224_72, Spec.KAT_Blake.blake512_1,
    Spec.KAT_Blake.blake512_144, Spec.KAT_Blake.blake384_1, Spec.KAT_Blake.blake384_144,
-   Spec.KAT_Blake.out_lengths).
+   Spec.KAT_Blake.out_lengths,
+   Spec.KAT_Blake.blake256_boundary_cross, Spec.KAT_Blake.blake224_boundary_cross,
+   Spec.KAT_Blake.blake512_boundary_cross, Spec.KAT_Blake.blake384_boundary_cross).
 
 Print Assumptions C04_round_eq_spec.
 Print Assumptions C04_round_side_condition.
@@ -121,3 +123,6 @@ Print Assumptions C04_blake512_eq_spec.
 Print Assumptions C04_blake384_eq_spec.
 Print Assumptions C04_updates_eq_spec.
 Print Assumptions C04_kats.
+Print Assumptions C04_hyp_satisfiable.
+Print Assumptions C04_instance_72.
+Print Assumptions C04_instance_two_blocks_55_56.
